@@ -115,8 +115,8 @@ Proof.
               else (false, k1)) as [keep1 k2].
     destruct (pexists l0 && pexists l1 && xorb keep0 keep1).
     + destruct keep1; [apply IH1 | apply IH0]; discriminate.
-    + destruct (if keep1 then graftp o tol s tf l1 false Indet 0 (q ++ [row1 (s_dec s p tf)]) k2 else (CU, k2)) as [c1 k3].
-      destruct (if keep0 then graftp o tol s tf l0 false Indet 0 (q ++ [row0 (s_dec s p tf)]) k3 else (CU, k3)) as [c0 k4].
+    + destruct (if keep1 then graftp o tol s tf l1 false Indet new_idx (q ++ [row1 (s_dec s p tf)]) k2 else (CU, k2)) as [c1 k3].
+      destruct (if keep0 then graftp o tol s tf l0 false Indet new_idx (q ++ [row0 (s_dec s p tf)]) k3 else (CU, k3)) as [c0 k4].
       exact Hst.
 Qed.
 Lemma root_live_cprune o tol s L t : root_live t -> root_live (fst (cprune o tol s L t [] k0)).
